@@ -251,6 +251,17 @@ def run(ctx):
                      f'names={",".join(real["names"])} pss={2 ** alg.d - 1}'))
         lines.append(f'signs {tok}')
         plan.append(('signs', desc, ','.join(map(str, real['signs']))))
+        # the *translated source* run on the same configuration (validates the translator and its prelude):
+        # the sign table through the translated _compute_sign, the names through the translated __post_init__ region
+        if alg.d <= 4:
+            lines.append(f'srcsigns {tok}')
+            plan.append(('translated:signs', desc, ','.join(map(str, real['signs']))))
+        if alg.d <= 5:
+            bs = ','.join(alg.basis) if alg.basis else '-'
+            st_in = desc.get('start') if desc.get('start') is not None else (0 if list(alg.signature).count(0) == 1 else 1)
+            lines.append(f'srcnames {bs} {alg.d} {st_in}')
+            plan.append(('translated:names', desc, f'{int(alg.start_index)}|' + ','.join(f'{n}:{k}' for n, k in alg.canon2bin.items()) + '|' +
+                         ','.join(f'{k}:{n}' for k, n in alg.bin2canon.items())))
         lines.append(f'cayley {tok}')
         plan.append(('cayley', desc, ','.join(real['cayley'])))
         for s, r in zip(sp, real['blades']):
